@@ -108,6 +108,13 @@ func c14Opts(accept string) []SqlOption {
 		return []SqlOption{f2}
 	case "both":
 		return []SqlOption{f1, f2}
+	// a nil function as the option's argument: alone, after and before a real one
+	case "nil":
+		return []SqlOption{WithAcceptable(nil)}
+	case "usernil":
+		return []SqlOption{f1, WithAcceptable(nil)}
+	case "niluser":
+		return []SqlOption{WithAcceptable(nil), f1}
 	}
 	panic("c14: bad accept " + accept)
 }
@@ -275,6 +282,7 @@ func c14Gen(r *verifh.Rng) []verifh.Section {
 	for _, c := range []struct{ via, api, a0, a1 string }{
 		{"fromdb", "ctx", "none", "both"}, {"fromdb", "plain", "user", "user2"}, {"fromdb", "ctx", "both", "none"},
 		{"named", "plain", "user2", "user"}, {"named", "ctx", "both", "both"}, {"onconn", "ctx", "none", "none"},
+		{"fromdb", "plain", "usernil", "niluser"}, {"fromdb", "ctx", "nil", "usernil"},
 	} {
 		ops := verifc14.ExhaustiveAcc(c.api, verifc14.AllClasses, accLen, 0)
 		rec := 1
@@ -309,8 +317,8 @@ func c14Gen(r *verifh.Rng) []verifh.Section {
 		default:
 			via = "namedbad"
 		}
-		accept := r.PickS("none", "user", "user2", "both")
-		accept1 := r.PickS("none", "user", "user2", "both")
+		accept := r.PickS("none", "user", "user2", "both", "none", "user", "user2", "both", "nil", "usernil", "niluser")
+		accept1 := r.PickS("none", "user", "user2", "both", "none", "user", "user2", "both", "nil", "usernil", "niluser")
 		n := r.Range(4, 14)
 		if rec == 0 && via != "onconn" {
 			n = r.Range(3, 8) // a real breaker keeps its history over the section
